@@ -10,6 +10,7 @@ import (
 	"net/http"
 	"strconv"
 	"sync"
+	"sync/atomic"
 
 	"verif/internal/dnsref"
 )
@@ -117,7 +118,7 @@ func resp(req *http.Request, status int, body []byte, noLength bool) *http.Respo
 		cl = -1
 	}
 	return &http.Response{StatusCode: status, Status: fmt.Sprintf("%d", status), Proto: "HTTP/1.1", ProtoMajor: 1, ProtoMinor: 1,
-		Header: h, Body: io.NopCloser(&dribble{b: body}), ContentLength: cl, Request: req}
+		Header: h, Body: newDribble(body), ContentLength: cl, Request: req}
 }
 
 // Mux routes requests to per-host servers, so that independent cases can run in
@@ -153,7 +154,27 @@ func (m *Mux) RoundTrip(req *http.Request) (*http.Response, error) {
 
 // dribble is the response body as a socket would deliver it: at most 97 bytes per Read, and the last bytes together with
 // io.EOF (both are legal io.Reader behaviour; a caller that issues a single Read, or drops data returned with EOF, sees less).
-type dribble struct{ b []byte }
+type dribble struct {
+	b      []byte
+	closed bool
+}
+
+// OpenBodies counts response bodies handed out and not closed yet (every one must be closed by whoever consumed the response,
+// whether it read the body or refused the response before reading it).
+var OpenBodies atomic.Int64
+
+func newDribble(b []byte) *dribble {
+	OpenBodies.Add(1)
+	return &dribble{b: b}
+}
+
+func (d *dribble) Close() error {
+	if !d.closed {
+		d.closed = true
+		OpenBodies.Add(-1)
+	}
+	return nil
+}
 
 func (d *dribble) Read(p []byte) (int, error) {
 	if len(d.b) == 0 {
